@@ -11,7 +11,7 @@ from .. import regexlang as rx
 from ..astutil import call_attr, calls_in, guard_facts, names_in, unparse, walk_local
 from ..report import Finding, Report
 from ..rx_extract import class_regex
-from ..srcindex import AnalysisError, Index
+from ..srcindex import AnalysisError, Index, raw_funcs
 
 PRINTER = "xdsl/printer.py"
 LEXER = "xdsl/utils/mlir_lexer.py"
@@ -544,6 +544,31 @@ def check_misc(idx: Index, rep: Report) -> None:
         r.ok(BUILTIN, "no print method branches on the truthiness of an `int | None` accessor")
 
 
+def check_hex_blob(idx: Index, rep: Report) -> None:
+    """Large dense attributes are printed as "0x<HEX of the packed bytes>"; the reader must remove exactly that
+    two-character prefix before bytes.fromhex (str.lstrip / strip take a character set: they also eat leading zero
+    nibbles of the payload)."""
+    r = rep.rule("C06.R12", "the hex-blob form of dense elements is read by removing exactly the `0x` prefix the printer writes", floor=1)
+    w = [c for f in raw_funcs(idx.module("xdsl/dialects/builtin.py")) for c in ast.walk(f.node) if isinstance(c, ast.JoinedStr) and unparse(c).startswith("f'\"0x{") and ".hex()" in unparse(c)]
+    if not w:
+        raise AnalysisError("builtin.py: the writer of the hex-blob form (f'\"0x{...hex()...}\"') was not found")
+    f = idx.func("xdsl/parser/attribute_parser.py", "AttrParser.parse_dense_int_or_fp_elements_attr")
+    calls = [c for c in calls_in(f.node) if unparse(c.func) == "bytes.fromhex" and c.args]
+    if not calls:
+        raise AnalysisError(f"{f.fq}: bytes.fromhex reader of the hex-blob form not found")
+    for c in calls:
+        a = c.args[0]
+        txt = unparse(a)
+        inst = f"{f.fq}:{txt[:40]}"
+        strip_calls = [x for x in ast.walk(a) if isinstance(x, ast.Call) and call_attr(x) in ("lstrip", "strip", "rstrip") and x.args]
+        if strip_calls:
+            r.fail(inst, Finding("C06.R12", f.fq, "hex-prefix-charset-strip", f"`{txt}`: str.{call_attr(strip_calls[0])} removes every leading character of the given set, not the prefix: a payload whose first byte is below 0x10 (`0x0A…`) loses its leading zero nibbles and no longer decodes to the printed bytes", f"{f.module.relpath}:{c.lineno}"))
+        elif (isinstance(a, ast.Subscript) and isinstance(a.slice, ast.Slice) and a.slice.upper is None and a.slice.step is None and unparse(a.slice.lower) == "2") or (isinstance(a, ast.Call) and call_attr(a) == "removeprefix" and a.args and unparse(a.args[0]).lower() in ("'0x'",)):
+            r.ok(inst, f"{f.module.relpath}:{c.lineno} `{txt}` removes exactly the 2-character prefix")
+        else:
+            raise AnalysisError(f"{f.fq}: `{txt}`: how the 0x prefix is removed was not recognised")
+
+
 def check(idx: Index, rep: Report, tier: str) -> str:
     forms = check_bytes(idx, rep)
     rep.run(check_misc, idx, rep)
@@ -554,6 +579,7 @@ def check(idx: Index, rep: Report, tier: str) -> str:
     rep.run(check_bool_spelling, idx, rep)
     rep.run(check_packed, idx, rep)
     rep.run(check_locations, idx, rep)
+    rep.run(check_hex_blob, idx, rep)
     return (
         "Finite-partition evaluation of the byte escaper over all 256 bytes against the lexer's string regex and decoder "
         "table; guard-exclusion analysis of raw string emission; regular-language inclusion of Python's float format "
